@@ -218,7 +218,19 @@ def record_run(sp, rs, k):
         Aop = lambda v: L(v.reshape(n, 1)).reshape(n)
     else:
         Aop = lambda v: A @ v
-    x = x0.copy()
+    # memory layout of the array the caller passes: contiguous, a strided view, or a column of a C-ordered 2-D array (solving
+    # several right-hand sides column by column) - the solution must end up in THAT array whatever its layout
+    layout = ["contiguous", "contiguous", "strided", "column"][(k // 8) % 4]
+    if layout == "strided":
+        buf = np.zeros(2 * n, dtype=x0.dtype)
+        x = buf[::2]
+        x[:] = x0
+    elif layout == "column":
+        buf = np.zeros((n, 3), dtype=x0.dtype)
+        x = buf[:, 1]
+        x[:] = x0
+    else:
+        x = x0.copy()
     xstar = np.linalg.solve(A, b)
     anorm = lambda e: float(np.sqrt(max(np.real(np.vdot(e, A @ e)), 0.0)))
     e0 = anorm(xstar - x0)
@@ -241,12 +253,13 @@ def record_run(sp, rs, k):
             xk = None
         den = e0 if e0 > 0 else 1.0
         ev.append({"e": "u", "iter": int(kk), "done": 0, "npd": 0, "resid0": 0, "err": fx(anorm(xstar - alg.x) / den), "kry": fx(anorm(alg.x - xk) / den) if xk is not None else 0,
-                   "res": fx(np.linalg.norm(alg.r - (b - A @ alg.x)) / max(np.linalg.norm(b), 1e-300)), "x_is_callers": int(alg.x is x)})
+                   "res": fx(np.linalg.norm(alg.r - (b - A @ alg.x)) / max(np.linalg.norm(b), 1e-300)),
+                   "x_is_callers": int(alg.x is x or np.array_equal(np.asarray(x), np.asarray(alg.x)))})
     # "exact within n updates" is an exact-arithmetic statement: in floating point it is demanded (1e-5) only for small, mildly
     # conditioned systems; beyond that (measured: 5e-2 left at n = 12, cond(A) = 366 with a random HPD preconditioner) only the
     # monotone decrease of the A-norm error is required at step n
     exact_tol = 10000 if (n <= 6 and cond <= 100 and mode != 2) else 1000000000
-    return {"id": "cg%d" % k, "n": n, "max_iter": max_iter, "exact_tol": exact_tol, "ev": ev, "meta": {"complex": cplx, "cond": round(cond, 2), "precond": mode, "linop": use_linop, "scale_A": sa, "scale_b": sb}}
+    return {"id": "cg%d" % k, "n": n, "max_iter": max_iter, "exact_tol": exact_tol, "ev": ev, "meta": {"complex": cplx, "cond": round(cond, 2), "precond": mode, "linop": use_linop, "scale_A": sa, "scale_b": sb, "layout": layout}}
 
 
 def run(ctx):
